@@ -222,12 +222,15 @@ Definition handle (s : site) (r : request) : outcome :=
 (* ---- the fixture the harness writes to disk (Gen_C02b is regenerated from the same table) ---- *)
 Definition fixture_fs : fsys :=
   map (fun t => match t with (p, d, i) => {| n_path := p; n_dir := d; n_id := i |} end) gen_c02_fixture.
-Definition static_site : site :=
-  {| s_fs := fixture_fs; s_hide := gen_c02_hide; s_pages := gen_default_index_pages;
-     s_internal := gen_c02_internal; s_browse := [] |}.
-Definition mksite (scope : bytes) (types : list bytes) : site :=
-  {| s_fs := fixture_fs; s_hide := gen_c02_hide; s_pages := gen_default_index_pages;
-     s_internal := gen_c02_internal; s_browse := [{| b_scope := scope; b_types := types |}] |}.
+(* the hide list a site ends up with: hideCasketfile's entry (from the absolute root and origin
+   paths the instance was started with), then the paths of the `internal` directives *)
+Definition site_hide (abs_root abs_origin : bytes) : list bytes :=
+  match hide_casketfile abs_root abs_origin with Some h => [h] | None => [] end ++ gen_c02_internal.
+(* scope = "" : no browse directive *)
+Definition mksite (abs_root abs_origin scope : bytes) (types : list bytes) : site :=
+  {| s_fs := fixture_fs; s_hide := site_hide abs_root abs_origin; s_pages := gen_default_index_pages;
+     s_internal := gen_c02_internal;
+     s_browse := match scope with [] => [] | _ => [{| b_scope := scope; b_types := types |}] end |}.
 
 (* ---- observations ---- *)
 (* kind: 0 plain response, 1 directory listing, 2 archive.  ids: identities of the fixture files
@@ -287,6 +290,15 @@ Definition one_slash (p : bytes) : bool :=
   | c :: r => (c =? SLASH) && match r with d :: _ => negb (d =? SLASH) | [] => true end
   | [] => false
   end.
+
+(* the names serve_file may have opened for the body: the request path or one of its index pages,
+   or such a name extended by the extension of an accepted encoding *)
+Definition served_from (pages : list bytes) (req ae : bytes) (enc : option bytes) (p : bytes) : Prop :=
+  exists base, (base = req \/ exists pg, In pg pages /\ base = path_join2 req pg) /\
+    match enc with
+    | None => p = jail base
+    | Some e => exists ext, In (e, ext) gen_static_encodings /\ accepts ae e = true /\ p = jail (base ++ ext)
+    end.
 
 (* hypothesis of the partial never-hidden theorem: no hidden file is reachable under a name
    q ++ ext, ext the extension of a static encoding *)
